@@ -43,15 +43,15 @@ const K_SRC_DYN_FN: i64 = 3;
 const K_SIGNAL: i64 = 4;
 const K_SUM: i64 = 5;
 const K_SUMBUF: i64 = 6;
-const K_PASS: i64 = 7;
-const K_DELAY: i64 = 8;
-const K_GRAPHNODE: i64 = 9;
+pub const K_PASS: i64 = 7;
+pub const K_DELAY: i64 = 8;
+pub const K_GRAPHNODE: i64 = 9;
 const K_SUM_REF: i64 = 10; // &'static mut Sum
-const K_PASS_BOXED_TWICE: i64 = 11; // Box<Pass> inside the wrapper
+pub const K_PASS_BOXED_TWICE: i64 = 11; // Box<Pass> inside the wrapper
 const K_SUMBUF_REF: i64 = 12;
-const N_KINDS: i64 = 13;
+pub const N_KINDS: i64 = 13;
 
-static KIND_NAMES: [&str; 13] = [
+pub static KIND_NAMES: [&str; 13] = [
     "source(struct)",
     "source(fn pointer)",
     "source(dyn FnMut)",
@@ -171,10 +171,10 @@ fn sevens(_: &[Input], output: &mut [Buffer]) {
 // ---------------------------------------------------------------------------------------------
 
 #[derive(Clone)]
-struct NodeM {
-    tag: u32,
-    kind: i64,
-    bufs: Vec<Buf>,
+pub struct NodeM {
+    pub tag: u32,
+    pub kind: i64,
+    pub bufs: Vec<[f32; 64]>,
     calls: u32,
     delay: Vec<VecDeque<f32>>,
     sig_channels: usize,
@@ -309,7 +309,7 @@ fn eval_node(n: &mut NodeM, inputs: &[Vec<Buf>], obs: &mut Observer) {
 // driver
 // ---------------------------------------------------------------------------------------------
 
-fn make_node<W: Wrap>(m: &NodeM, param: i64) -> Option<W> {
+pub fn make_node<W: Wrap>(m: &NodeM, param: i64) -> Option<W> {
     let tag = m.tag;
     Some(match m.kind {
         K_SRC => W::wrap(SrcNode { tag, call: 0 }),
@@ -403,7 +403,7 @@ fn make_node<W: Wrap>(m: &NodeM, param: i64) -> Option<W> {
     })
 }
 
-fn new_model(tag: u32, kind: i64, nbuf: usize, param: i64, init: f32) -> NodeM {
+pub fn new_model(tag: u32, kind: i64, nbuf: usize, param: i64, init: f32) -> NodeM {
     let p = param.max(0) as usize;
     let mut m = NodeM {
         tag,
